@@ -69,7 +69,7 @@ def mk_rdms(variant, shift=0, n_rdm=3, n_cond=4, seed=0):
     names = ['c%s' % 'hdbfaecg'[i] for i in range(n_cond)]
     return RDMs(d, dissimilarity_measure='euclidean', descriptors={'subj': 'x%d' % shift},
                 rdm_descriptors={'rid': c([shift + i for i in range(n_rdm)]), 'w': c([1.0 + i for i in range(n_rdm)]),
-                                 'grp': c([i // 2 for i in range(n_rdm)])},
+                                 'grp': c([i // 2 for i in range(n_rdm)]), 'one': c([7] * n_rdm)},
                 pattern_descriptors={'name': c(names), 'conds': c(names), 'cat': c([i % 2 for i in range(n_cond)])})
 
 
@@ -273,6 +273,9 @@ def _option_menu(base, variant, seed):
         'theta': [lambda: None],
         'dof': [lambda: 5],
         'weights': [lambda: np.array([1.0, 2.0, 0.5]), lambda: 'w'],
+        # grouping descriptors with repeated values, and the degenerate single group
+        'rdm_descriptor': [lambda: 'grp', lambda: 'one'],
+        'pattern_descriptor': [lambda: 'cat'],
     }
     if base in methods:
         M['method'] = [(lambda m=m: m) for m in methods[base]]
@@ -492,7 +495,7 @@ def _targets(obj, prefix='', depth=0):
             out.append((prefix + '.rdm', obj.rdm))
     elif isinstance(obj, Result):
         out.append((prefix + '.evaluations', obj.evaluations))
-    elif isinstance(obj, (list, tuple)) and depth < 2:
+    elif isinstance(obj, (list, tuple)) and depth < 3:   # (train, test, ceil) -> folds -> (rdms, idx)
         for i, v in enumerate(obj[:4]):
             out += _targets(v, '%s[%d]' % (prefix, i), depth + 1)
     return out
